@@ -172,6 +172,27 @@ func CheckPanics(on bool)    {}
 func CheckDeadlock(on bool)  {}
 func MapOrderNondet(on bool) {}
 
+// Bounded runs f under a resource bound: at most allocBytes allocated and (under the engine) at
+// most loop iterations of any input-controlled loop. Under the engine the bound is an obligation
+// discharged by the solver at every allocation whose size is symbolic; natively the allocation
+// volume and the running time are measured.
+func Bounded(allocBytes int, loop int, f func()) {
+	var before, after runtime.MemStats
+	runtime.ReadMemStats(&before)
+	t0 := time.Now()
+	f()
+	el := time.Since(t0)
+	runtime.ReadMemStats(&after)
+	if after.TotalAlloc-before.TotalAlloc > uint64(allocBytes)+(1<<20) {
+		fmt.Fprintf(os.Stderr, "VERIF-ASSERT-FAIL bounded-alloc (%d bytes allocated, budget %d)\n", after.TotalAlloc-before.TotalAlloc, allocBytes)
+		os.Exit(7)
+	}
+	if el > 5*time.Second {
+		fmt.Fprintf(os.Stderr, "VERIF-ASSERT-FAIL bounded-loop (%v)\n", el)
+		os.Exit(7)
+	}
+}
+
 // Panics runs f and reports whether it panicked.
 func Panics(f func()) (p bool) {
 	defer func() {
